@@ -53,15 +53,21 @@ THneg == /\ Ev("hneg") /\ HNeg /\ Cur.ran = (IF neg'.ok THEN 1 ELSE 0)
 \* what user code was given
 THsaw == /\ Ev("hsaw") /\ HRun /\ Cur.ids = hsaw'.ids /\ Visible(sc.reqhdr, Cur.hdr)
 
+\* "peer" scenarios: the other side is the reference codec acting as a conformant foreign implementation that
+\* uses the freedoms the protocols leave (which messages to compress, casing, padding ...): C05's converse
+IsPeer == "peer" \in DOMAIN sc /\ sc.peer # ""
 \* the response on the wire
 TResp ==
   /\ Ev("resp") /\ HResp
   /\ Cur.problems = <<>>
-  /\ Cur.status = wresp'.status /\ Cur.ctype = wresp'.ctype /\ Cur.enc = wresp'.enc
-  /\ Cur.accept = Join(Names(sc.hpools))
+  /\ Cur.status = wresp'.status /\ Cur.ctype = wresp'.ctype
   /\ Cur.ids = wresp'.ids
   /\ Len(Cur.flags) >= Len(wresp'.flags)
-  /\ \A i \in 1..Len(wresp'.flags) : Bit0(Cur.flags[i]) = wresp'.flags[i]
+  /\ IF IsPeer
+     THEN \* a peer may compress any subset of the messages once the header names an algorithm
+          (\E i \in 1..Len(wresp'.flags) : Bit0(Cur.flags[i]) = 1) => ~Identity(Cur.enc)
+     ELSE /\ Cur.enc = wresp'.enc /\ Cur.accept = Join(Names(sc.hpools))
+          /\ \A i \in 1..Len(wresp'.flags) : Bit0(Cur.flags[i]) = wresp'.flags[i]
   /\ IF wresp'.err = None THEN Cur.err.code = 0
      ELSE /\ Cur.err.code = wresp'.err.code
           /\ (neg.ok => Cur.err.msg = wresp'.err.msg /\ Cur.err.details = Details(wresp'.err.ndet))
